@@ -14,6 +14,20 @@ SEEDED = os.path.join(ROOT, "seeded")
 REPO = "/repo"
 
 
+def _touch_changed(repo, files=None):
+    """cargo decides by mtime: make sure files changed by an apply / revert are seen as newer than the last build."""
+    import time
+    if files is None:
+        out = subprocess.run(["git", "-C", repo, "diff", "--name-only"], capture_output=True, text=True).stdout
+        files = [f for f in out.splitlines() if f.strip()]
+    now = time.time() + 1
+    for f in files:
+        p = os.path.join(repo, f)
+        if os.path.exists(p):
+            os.utime(p, (now, now))
+    return files
+
+
 def _stash_evidence():
     """Checks rewrite evidence/<id>.json on every run; runs against a deliberately broken /repo must not
     leave their evidence behind (committed evidence has to come from the unchanged tree)."""
@@ -59,6 +73,7 @@ def confirm(wt, k, prop):
     os.makedirs(os.path.dirname(demo_abs), exist_ok=True)
     try:
         sh(["git", "apply", patch], wt)
+        changed = _touch_changed(wt)
         rc, out = sh(["cargo", "test", "--workspace", "--offline", "--no-fail-fast"], wt)
         failed = re.findall(r"^test (\S+) \.\.\. FAILED", out, re.M)
         log["suite_with_change"] = "pass" if rc == 0 else "FAIL: %s" % failed
@@ -70,6 +85,7 @@ def confirm(wt, k, prop):
         rc_with, out_with = sh(["cargo", "test", "--offline"] + release + pkg + ["--test", test_name], wt)
         log["demo_with_change"] = "fails" if rc_with != 0 else "PASSES"
         sh(["git", "apply", "-R", patch], wt)
+        _touch_changed(wt, changed)
         rc_wo, out_wo = sh(["cargo", "test", "--offline"] + release + pkg + ["--test", test_name], wt)
         log["demo_without_change"] = "passes" if rc_wo == 0 else "FAILS"
     finally:
@@ -121,6 +137,7 @@ def _check(ids, thorough=False):
         if st.strip():
             sys.exit("/repo not clean")
         rc = subprocess.run(["git", "-C", REPO, "apply", os.path.join(SEEDED, d, "patch.diff")]).returncode
+        changed = _touch_changed(REPO)
         if rc != 0:
             meta["checks"]["apply"] = "patch no longer applies to /repo HEAD"
             json.dump(meta, open(mp, "w"), indent=1)
@@ -138,6 +155,7 @@ def _check(ids, thorough=False):
                     break
         finally:
             subprocess.run(["git", "-C", REPO, "checkout", "--", "."], check=True)
+            _touch_changed(REPO, changed)
             subprocess.run(["git", "-C", REPO, "clean", "-fdq", "tests", "static-metric/tests"], check=False)
         json.dump(meta, open(mp, "w"), indent=1)
 
